@@ -174,7 +174,11 @@ impl TplLitType {
                         TplLitTypeItem::String => "${string}".to_string(),
                         TplLitTypeItem::Number => "${number}".to_string(),
                         TplLitTypeItem::Boolean => "${boolean}".to_string(),
-                        TplLitTypeItem::StringConst(v) => v.clone(),
+                        // chunks hold the text they stand for: print it as template source again
+                        TplLitTypeItem::StringConst(v) => v
+                            .replace('\\', "\\\\")
+                            .replace('`', "\\`")
+                            .replace("${", "\\${"),
                         TplLitTypeItem::OneOf(values) => {
                             let mut values = values.iter().collect::<Vec<_>>();
                             values.sort();
